@@ -1,130 +1,17 @@
 (* driver.ml -- runs the extracted Coq models and specifications on case files.
    usage: driver <model|spec> <case-file> <out-file>
-   One canonical result line per case, same format as the Rust harness.
-   Parsing / printing only; all logic is in gen/extracted.ml. *)
-open Extracted
+   One canonical result line per case, same format as the Rust harnesses.  The
+   handlers live in drv_*.ml (registered at start-up); all logic is in
+   gen/extracted.ml. *)
+open Util
 
-let rec pos_of_int (i : int) : positive =
-  if i = 1 then XH
-  else if i land 1 = 0 then XO (pos_of_int (i lsr 1))
-  else XI (pos_of_int (i lsr 1))
-
-let n_of_int (i : int) : n = if i = 0 then N0 else Npos (pos_of_int i)
-
-let rec int_of_pos (p : positive) : int =
-  match p with XH -> 1 | XO q -> 2 * int_of_pos q | XI q -> 2 * int_of_pos q + 1
-
-let int_of_n (x : n) : int = match x with N0 -> 0 | Npos p -> int_of_pos p
-
-(* byte values are shared so that conversion is a table lookup *)
-let byte_tab : n array = Array.init 256 n_of_int
-let nb (i : int) : n = byte_tab.(i)
-
-let unhex (s : string) : int list =
-  if s = "-" then []
-  else begin
-    let l = String.length s / 2 in
-    List.init l (fun i -> int_of_string ("0x" ^ String.sub s (2 * i) 2))
-  end
-
-let hex (l : int list) : string =
-  String.concat "" (List.map (fun b -> Printf.sprintf "%02x" b) l)
-
-let hexn (l : n list) : string = hex (List.map int_of_n l)
-
-let params (ps : n list list) : string =
-  Printf.sprintf "%d:%s" (List.length ps)
-    (String.concat ";" (List.map (fun g -> String.concat "," (List.map (fun v -> string_of_int (int_of_n v)) g)) ps))
-
-let ints (l : n list) : string = Printf.sprintf "%d:%s" (List.length l) (hexn l)
-let b01 (b : bool) : string = if b then "1" else "0"
-
-let show_event (e : event) : string =
-  match e with
-  | EPrint cp -> Printf.sprintf "p:%d" (int_of_n cp)
-  | EExecute b -> Printf.sprintf "x:%d" (int_of_n b)
-  | EHook (ps, is, ig, b) -> Printf.sprintf "h:%s:%s:%s:%d" (params ps) (ints is) (b01 ig) (int_of_n b)
-  | EPut b -> Printf.sprintf "u:%d" (int_of_n b)
-  | EUnhook -> "U"
-  | EOsc (fs, bell) -> Printf.sprintf "o:%d:%s:%s" (List.length fs) (String.concat "," (List.map hexn fs)) (b01 bell)
-  | ECsi (ps, is, ig, b) -> Printf.sprintf "c:%s:%s:%s:%d" (params ps) (ints is) (b01 ig) (int_of_n b)
-  | EEsc (is, ig, b) -> Printf.sprintf "e:%s:%s:%d" (ints is) (b01 ig) (int_of_n b)
-
-exception Model_panic
-
-(* ---- C02 ---------------------------------------------------------------- *)
-
-let model_feed cfg p (bytes : int list) (buf : Buffer.t) (count : int ref) =
-  List.fold_left
-    (fun p b ->
-      match advance cfg p (nb b) with
-      | None -> raise Model_panic
-      | Some (p', evs) ->
-          List.iter
-            (fun e ->
-              if !count > 0 then Buffer.add_char buf ' ';
-              incr count;
-              Buffer.add_string buf (show_event e))
-            evs;
-          p')
-    p bytes
-
-let spec_feed s (bytes : int list) (buf : Buffer.t) (count : int ref) =
-  List.fold_left
-    (fun s b ->
-      let s', evs = vt_step s (nb b) in
-      List.iter
-        (fun e ->
-          if !count > 0 then Buffer.add_char buf ' ';
-          incr count;
-          Buffer.add_string buf (show_event e))
-        evs;
-      s')
-    s bytes
-
-let c02 side f =
-  let bytes = unhex (List.nth f 0) in
-  let buf = Buffer.create 256 and count = ref 0 in
-  (match side with
-   | `Model -> ignore (model_feed cfg_default parser_new bytes buf count)
-   | `Spec -> ignore (spec_feed vt_init bytes buf count));
-  Buffer.contents buf
-
-let c02after side f =
-  let prefix = unhex (List.nth f 0) and rest = unhex (List.nth f 1) in
-  let scratch = Buffer.create 256 and c0 = ref 0 in
-  let buf = Buffer.create 256 and count = ref 0 in
-  (match side with
-   | `Model ->
-       let p = model_feed cfg_default parser_new prefix scratch c0 in
-       ignore (model_feed cfg_default p rest buf count)
-   | `Spec ->
-       let s = spec_feed vt_init prefix scratch c0 in
-       ignore (spec_feed s rest buf count));
-  Buffer.contents buf
-
-let tbl _side f =
-  let d = int_of_string (List.nth f 0) in
-  let st = List.find (fun s -> int_of_n (state_disc s) = d) all_states in
-  let parts =
-    List.init 256 (fun b ->
-        match state_change st (nb b) with
-        | None -> raise Model_panic
-        | Some (s, a) -> Printf.sprintf "%d.%d" (int_of_n (state_disc s)) (int_of_n (action_disc a)))
-  in
-  String.concat " " parts
-
-let run_case side (line : string) : string =
+let run_case (side : side) (line : string) : string =
   match String.split_on_char ' ' line with
   | [] -> ""
   | kind :: f -> (
-      try
-        match kind with
-        | "tbl" -> tbl side f
-        | "c02" -> c02 side f
-        | "c02after" -> c02after side f
-        | _ -> "UNKNOWN-KIND " ^ kind
-      with Model_panic -> "PANIC")
+      match Hashtbl.find_opt handlers kind with
+      | None -> "UNKNOWN-KIND " ^ kind
+      | Some h -> ( try h side f with Model_panic -> "PANIC"))
 
 let () =
   if Array.length Sys.argv <> 4 then begin
@@ -137,7 +24,8 @@ let () =
      while true do
        let line = input_line ic in
        if line <> "" then begin
-         output_string oc (run_case side line);
+         let r = run_case side line in
+         output_string oc (if r = "" then "-" else r);
          output_char oc '\n'
        end
      done
